@@ -12,10 +12,10 @@ PROPS["C03"] = {
     "streams": [{"comp": "C03", "quick_n": 20000, "thorough_n": 2000000,
                  "nontrivial": lambda q, a: not a.startswith("bad-op") and not a.startswith("0 ")}],
     "rule": "every one of the 25 opcodes executed by the real interpreter (Interpreter::run on [op], all specs where it exists) on: the complete cross product of 67 boundary words for unary/binary ops, biased-random words, and relation-driven pairs (a,a), (a,-a), (a,a+1), (a,b,a); non-trivial = result word is not 0; distinct by request line",
-    "explanation": "Theorems: Model.op = Spec.op for all words < 2^256 (Spec = unbounded Nat/Int arithmetic mod 2^256). The model follows the Rust control flow over ruint primitives; the correspondence stream ties it to the compiled opcode handlers, including gas charged and stack items consumed.",
-    "level_text": "Kernel-checked theorems Model.op = Spec.op for all 256-bit operands (Spec = unbounded Nat/Int arithmetic mod 2^256, two's complement for signed ops); the model follows the Rust control flow; opcodes without a closed theorem yet are carried by the three-way correspondence impl = model = spec column.",
-    "level_note": "Trusted: Lean kernel; ruint primitives as defined in Util/Word.lean; the model is tied to the compiled opcode handlers by differential correspondence (boundary cross product + random), not by proof.",
-    "trusted_base": ["ruint primitive operations (+,-,*,/,%,pow loop body, shifts, bit, add_mod, mul_mod) as defined in Revm/Util/Word.lean"],
+    "explanation": "Theorems (Props/C03.lean): for each of the 25 opcodes Model.op = Spec.op for all words < 2^256 (Spec = unbounded Nat/Int arithmetic mod 2^256; Int.tdiv/Int.tmod for SDIV/SMOD, a^b mod 2^256 for EXP, floor division of the signed reading for SAR, any 256-bit shift amount / byte index), every result is again < 2^256, and exp_cost = 10 + (10|50)*byteLen(exponent) never fails (log2floor's limb scan = Nat.log2). The model follows the Rust control flow over ruint primitives; the correspondence stream ties it to the compiled opcode handlers, including gas charged (3/5/8 and exp_cost per fork) and stack items consumed.",
+    "level_text": "Kernel-checked theorems Model.op = Spec.op for all 256-bit operands for all 25 opcodes (Spec = unbounded Nat/Int arithmetic mod 2^256, two's complement for signed ops, 0 on zero divisor/modulus), range preservation of every result, and the EXP gas formula; the model follows the Rust control flow; static gas 3/5/8 and the number of consumed stack items are established by the three-way correspondence impl = model = spec column on every fork where the opcode exists.",
+    "level_note": "Trusted: Lean kernel; ruint primitives as defined in Util/Word.lean and u64::leading_zeros as defined in Model/Arith.lean (lz64); the model is tied to the compiled opcode handlers by differential correspondence (boundary cross product + random), not by proof.",
+    "trusted_base": ["ruint primitive operations (+,-,*,/,%,pow loop body, shifts, bit, add_mod, mul_mod) as defined in Revm/Util/Word.lean", "u64::leading_zeros as defined by Model.Arith.lz64"],
 }
 
 PROPS["C05"] = {
